@@ -137,6 +137,11 @@ void h_fe_mark_and_signal(void) {
   __CPROVER_assert(g_hold == 0 && g_unlocked == 1, "mark_and_signal: releases the lock");
   VERIF_CANARY();
 }
+/* plain lock / unlock take and release the lock whatever the status is: they never sleep on a status condition (a plain
+   locker that waited for "the status it saw" would sleep for ever once the status has moved on) */
+int fe_never_waits_contract(myth_cond_t * c, myth_mutex_t * m)
+  __CPROVER_requires(0 && "felock_lock / felock_unlock never wait for a status")
+  __CPROVER_assigns() __CPROVER_ensures(1);
 void h_fe_lock_unlock(void) {
   g_hold = 0; g_unlocked = 0;
   int r = myth_felock_lock_body(&FE);
